@@ -224,6 +224,11 @@ def iterative_case(rnd, T=8):
     a1 = Fraction(rnd.randint(30, 90), 100)
     a2 = Fraction(rnd.randint(5, 60), 100)
     th = Fraction(rnd.randint(5, 50), 100)
+    if rnd.random() < 0.35:
+        # the slow corner: a high propensity to consume with a low tax rate (the sweep contracts by q = a1*(1-theta)
+        # close to 1 and needs hundreds of sweeps per period)
+        a1 = Fraction(rnd.randint(90, 98), 100)
+        th = Fraction(rnd.randint(1, 6), 100)
     H0 = Fraction(rnd.randint(0, 120))
     G = [Fraction(rnd.randint(5, 40)) for _ in range(T + 1)]
     case = {'model': 'SIM', 'a1': rat(a1), 'a2': rat(a2), 'theta': rat(th), 'G': [rat(g) for g in G[1:]],
